@@ -183,7 +183,7 @@ def run_getitem(c, shape, exprs):
                 c.fail('C13|getitem|memory sharing|%s' % idx_class(ix), case, {'numpy_shares': bool(np.shares_memory(ref0, plain))})
 
 
-RHS_KINDS = ['utpm', 'utpm_scalar', 'ndarray', 'float', 'np.float64']
+RHS_KINDS = ['utpm', 'utpm_scalar', 'ndarray', 'float', 'np.float64', 'own0view', 'own0rev']
 
 
 def run_setitem(c, shape, exprs):
@@ -212,6 +212,23 @@ def run_setitem(c, shape, exprs):
                 elif rk == 'ndarray':
                     R = fill(sshape, 1, 1, off=7)[0, 0] * 2.0
                     rhs = np.array(R, copy=True)
+                elif rk in ('own0view', 'own0rev'):
+                    # the right-hand side is a VIEW of the polynomial's own zeroth coefficient (direction 0) that overlaps
+                    # the assigned region: NumPy semantics = the values before the assignment
+                    if P != 1 or np.ndim(sel) == 0:
+                        continue
+                    src = x.data[0, 0]
+                    flat = src.reshape(-1) if src.flags['C_CONTIGUOUS'] else None
+                    if flat is None or flat.size < np.size(sel):
+                        continue
+                    view = flat[:np.size(sel)] if rk == 'own0view' else flat[::-1][:np.size(sel)]
+                    try:
+                        rhs = view.reshape(sshape)
+                    except Exception:
+                        continue
+                    if not np.shares_memory(rhs, x.data):
+                        continue
+                    R = np.array(rhs, copy=True)
                 elif rk == 'float':
                     R = rhs = 2.75
                 else:
@@ -378,6 +395,9 @@ def run_ops(c, tier):
                         compare_op(c, 'triu', 'k=%d|%s' % (k, tag), x, X, lambda a, k=k: algopy.triu(a, k), lambda a, k=k: np.triu(a, k), cls='k%s0' % ('=' if k == 0 else '!='))
                         compare_op(c, 'tril', 'k=%d|%s' % (k, tag), x, X, lambda a, k=k: algopy.tril(a, k), lambda a, k=k: np.tril(a, k), cls='k%s0' % ('=' if k == 0 else '!='))
                     compare_op(c, 'trace', tag, x, X, algopy.trace, np.trace)
+                    for tshape in [(4, 2), (5, 1), (1, 4), (6, 3), (2, 6)]:
+                        TX = fill(tshape, D, P, cplx)
+                        compare_op(c, 'trace', '%s|%s' % (tshape, tag), UTPM(TX.copy()), TX, algopy.trace, np.trace, cls='tall' if tshape[0] > tshape[1] else 'wide')
                     for axis in (-1, 0, 1, -2):
                         for nn in (None, 2, 4):
                             compare_op(c, 'fft', 'n=%s axis=%d|%s' % (nn, axis, tag), x, X, lambda a, nn=nn, axis=axis: algopy.fft.fft(a, n=nn, axis=axis),
